@@ -83,12 +83,21 @@ def _worker(args):
                     item["status"] = "unknown"
             obs.append(item)
         rep["obligations"] = obs
+        rep["unreachable_ok"] = list(eng.reg.contracts.get(key, {}).get("unreachable_ok", []))
         rep["trivial"] = [list(x) for x in rep.get("trivial", [])]
         rep["undecided"] = [list(x) for x in rep.get("undecided", [])]
         rep["wall"] = time.time() - t0
         return rep
     except Exception:
         return dict(key=key, name=key, error="crash: " + traceback.format_exc(), obligations=[], trivial=[], undecided=[], wall=time.time() - t0, crash=True)
+
+
+def contracts_unreachable_ok(pid, key):
+    try:
+        from contracts import build
+        return list(build(pid).reg.contracts.get(key, {}).get("unreachable_ok", []))
+    except Exception:
+        return []
 
 
 def norm_name(n):
@@ -145,6 +154,10 @@ def run_property(pid, tier="quick", seed=0):
             undecided.append(dict(function=rep["key"], reason=rep["error"]))
         for u in rep.get("undecided", []):
             undecided.append(dict(function=rep["key"], reason=u[0], line=u[1]))
+        for u in rep.get("unreached", []):
+            # a statement of the real body that no feasible symbolic state reaches and that the contract does not list as
+            # intentionally excluded: its obligations would be vacuous - never counted as proved
+            undecided.append(dict(function=rep["key"], reason=f"statement never reached under the contract (vacuity guard): L{u['line']}: {u['text'][:100]}", line=u["line"]))
         triv = rep.get("trivial", [])
         n_ob += len(triv); n_dis += len(triv)
         if triv:
@@ -163,7 +176,9 @@ def run_property(pid, tier="quick", seed=0):
                 undecided.append(dict(function=rep["key"], reason="solver unknown: " + ob["name"], obligation=ob["name"]))
         fn_rows.append(dict(function=rep["key"], line=rep.get("line"), source_hash=rep.get("hash"), paths=rep.get("paths"),
                             outcomes=rep.get("outcomes"), obligations=len(rep["obligations"]) + len(triv),
-                            awaits=rep.get("awaits"), dropped_calls=rep.get("dropped"), symexec_s=round(rep.get("symexec_s", 0), 3)))
+                            awaits=rep.get("awaits"), dropped_calls=rep.get("dropped"), symexec_s=round(rep.get("symexec_s", 0), 3),
+                            statements_never_reached=rep.get("unreached", []),
+                            statements_excluded_by_contract=rep.get("unreachable_ok", [])))
         for ob in rep["obligations"][:3]:
             samples.append(f"{rep['key']} :: {ob['name']} -> {ob['status']} [{ob['backend']}, {ob['time']*1000:.1f} ms]")
 
@@ -285,10 +300,14 @@ def run_property(pid, tier="quick", seed=0):
             for ob in rep.get("obligations", []):
                 nm = norm_name(ob["name"])
                 d[nm] = round(max(d.get(nm, 0.0), ob["time"]), 3)
+            for t in rep.get("trivial", []):        # discharged by the simplifier alone (not counted as obligations): time 0
+                d.setdefault(norm_name(t[0]), 0.0)
         os.makedirs(os.path.join(ROOT, "baseline"), exist_ok=True)
         json.dump(base, open(os.path.join(ROOT, "baseline", f"{pid}.json"), "w"), indent=0, sort_keys=True)
-    os.makedirs(os.path.join(ROOT, "evidence"), exist_ok=True)
-    with open(os.path.join(ROOT, "evidence", f"{pid}.json"), "w") as fh:
+    # evidence of a run against another tree (drills: VERIF_REPO) never overwrites the evidence of /repo
+    evdir = os.path.join(ROOT, "evidence") if os.path.realpath(REPO) == "/repo" else os.path.join(ROOT, ".cache", "evidence-other-tree")
+    os.makedirs(evdir, exist_ok=True)
+    with open(os.path.join(evdir, f"{pid}.json"), "w") as fh:
         json.dump(ev, fh, indent=1, default=str)
     print(f"[{pid}] functions={len(fn_rows)} obligations={n_ob} discharged={n_dis} failed={len(violations)} (known {len(known_hits)}) "
           f"undecided={len(undecided)} crashes={len(crashes)} bounded={[(b['name'], b.get('cases')) for b in bounded_rows]} wall={wall:.1f}s", file=sys.stderr)
